@@ -85,6 +85,139 @@ def param_closure(cfg: CFG, at: int, expr: ast.AST, max_steps: int = 400) -> Set
     return out
 
 
+def resolved(cfg: CFG, at: int, expr: ast.AST, depth: int = 8) -> ast.AST:
+    """`expr` with every local that has exactly one reaching plain definition replaced by that definition's value, recursively (a copy).  Temporaries,
+    renamed locals and the re-binding of one name in two steps all resolve to the same expression.  Tuple-unpacked locals become `<rhs>[i]`."""
+    import copy
+
+    class R(ast.NodeTransformer):
+        def __init__(self, node, d):
+            self.node, self.d = node, d
+
+        def visit_Lambda(self, n):
+            return n
+
+        def visit_Name(self, n):
+            if not isinstance(n.ctx, ast.Load) or self.d <= 0:
+                return n
+            ds = cfg.reaching(self.node, n.id)
+            if len(ds) != 1:
+                return n
+            d = ds[0]
+            if d.kind == "assign" and d.value is not None:
+                return R(d.node, self.d - 1).visit(copy.deepcopy(d.value))
+            if d.kind == "unpack" and d.value is not None and d.stmt is not None and isinstance(d.stmt, ast.Assign):
+                t = d.stmt.targets[0]
+                if isinstance(t, (ast.Tuple, ast.List)):
+                    for i, e in enumerate(t.elts):
+                        if isinstance(e, ast.Name) and e.id == n.id:
+                            base = R(d.node, self.d - 1).visit(copy.deepcopy(d.value))
+                            return ast.Subscript(value=base, slice=ast.Constant(value=i), ctx=ast.Load())
+            return n
+    return R(at, depth).visit(copy.deepcopy(expr))
+
+
+def inline_new_helpers(expr: ast.AST, fi: FuncInfo, depth: int = 3) -> ast.AST:
+    """Calls to single-expression helper functions/methods that the reference tree does not have (`return <expr>` bodies, extracted by a refactoring)
+    are replaced by that expression with the arguments substituted (a copy)."""
+    import copy
+    from . import report as _report
+    mod = fi.module
+
+    def find(call: ast.Call):
+        name = None
+        if isinstance(call.func, ast.Name):
+            name, recv = call.func.id, None
+        elif isinstance(call.func, ast.Attribute) and isinstance(call.func.value, ast.Name) and call.func.value.id in ("self", "cls"):
+            name, recv = call.func.attr, call.func.value.id
+        else:
+            return None
+        cands = [q for q in mod.functions if q == name or q.endswith("." + name)]
+        for q in cands:
+            if _report.CURRENT_DRIFT.get(f"{mod.name}.{q}", 0) is not None:
+                continue
+            h = mod.functions[q]
+            body = [st for st in h.body if not (isinstance(st, ast.Expr) and isinstance(st.value, ast.Constant))]
+            if len(body) == 1 and isinstance(body[0], ast.Return) and body[0].value is not None:
+                params = [p for p in h.params if p not in ("self", "cls")]
+                if len(params) == len(call.args) and not call.keywords:
+                    return body[0].value, dict(zip(params, call.args))
+        return None
+
+    class I(ast.NodeTransformer):
+        def __init__(self, d):
+            self.d = d
+
+        def visit_Call(self, n):
+            self.generic_visit(n)
+            if self.d <= 0:
+                return n
+            hit = find(n)
+            if hit is None:
+                return n
+            body, binding = hit
+
+            class S(ast.NodeTransformer):
+                def visit_Name(self, m):
+                    return copy.deepcopy(binding[m.id]) if m.id in binding and isinstance(m.ctx, ast.Load) else m
+            return I(self.d - 1).visit(S().visit(copy.deepcopy(body)))
+    return I(depth).visit(copy.deepcopy(expr))
+
+
+def fold_module_constants(expr: ast.AST, fi: FuncInfo) -> ast.AST:
+    """Names bound at module level to a number / string literal are replaced by the literal (a copy): a magic number given a name is the same number."""
+    import copy
+    consts = {k: v for k, v in fi.module.assigns.items() if isinstance(v, ast.Constant) and isinstance(v.value, (int, float, str)) and not isinstance(v.value, bool)}
+    local = set(fi.params)
+
+    class F(ast.NodeTransformer):
+        def visit_Name(self, n):
+            if isinstance(n.ctx, ast.Load) and n.id in consts and n.id not in local:
+                return copy.deepcopy(consts[n.id])
+            return n
+    return F().visit(copy.deepcopy(expr))
+
+
+def alternatives(cfg: CFG, at: int, name: str, fi: Optional[FuncInfo] = None) -> List[Tuple[str, List[Tuple[str, bool]]]]:
+    """The values `name` can have at `at` with the (canonical) conditions under which each is chosen: one entry per reaching plain definition,
+    a conditional expression counts as two definitions.  Values are resolved through temporaries and module constants."""
+    from .guards import canon_fact, canon_facts
+    from .model import norm
+    out = []
+    for d in cfg.reaching(at, name):
+        if d.value is None:
+            out.append((f"<{d.kind}>", []))
+            continue
+        base = canon_facts(cfg, d.node)
+
+        def emit(v, extra):
+            e = resolved(cfg, d.node, v)
+            if fi is not None:
+                e = fold_module_constants(inline_new_helpers(e, fi), fi)
+            if isinstance(e, ast.IfExp):
+                emit_raw(e.body, extra + [canon_fact(e.test, True)])
+                emit_raw(e.orelse, extra + [canon_fact(e.test, False)])
+            else:
+                out.append((norm(e), base + extra))
+
+        def emit_raw(e, extra):
+            if isinstance(e, ast.IfExp):
+                emit_raw(e.body, extra + [canon_fact(e.test, True)])
+                emit_raw(e.orelse, extra + [canon_fact(e.test, False)])
+            else:
+                out.append((norm(e), base + extra))
+        emit(d.value, [])
+    return out
+
+
+def resolved_text(cfg: CFG, at: int, expr: ast.AST, fi: Optional[FuncInfo] = None) -> str:
+    from .model import norm
+    e = resolved(cfg, at, expr)
+    if fi is not None:
+        e = fold_module_constants(inline_new_helpers(e, fi), fi)
+    return norm(e)
+
+
 def derives_from(cfg: CFG, at: int, expr: ast.AST, sources: Iterable[str]) -> bool:
     names, _ = expr_closure(cfg, at, expr)
     return bool(names & set(sources))
